@@ -30,6 +30,9 @@ use crate::{
     waker_queue::{WakerInterest, WakerQueue},
 };
 
+#[cfg(actix_net_verif)]
+pub(crate) mod verif;
+
 /// Stop worker message. Returns `true` on successful graceful shutdown
 /// and `false` if some connections still alive when shutdown execute.
 pub(crate) struct Stop {
@@ -147,6 +150,9 @@ impl Drop for WorkerCounterGuard {
     fn drop(&mut self) {
         let (waker_queue, counter) = &*self.0.inner;
         if counter.dec() {
+            #[cfg(actix_net_verif)]
+            crate::accept::verif::yield_point(crate::accept::verif::Point::AfterDec(self.0.idx));
+
             waker_queue.wake(WakerInterest::WorkerAvailable(self.0.idx));
         }
     }
